@@ -168,7 +168,7 @@ func runWAF(rs *runState, idx *int) {
 		if !c.Mine(*idx) || c.Expired() {
 			continue
 		}
-		in := crsInputs(p, rs.multiline, false)
+		in := derivedInputs(p, rs.multiline, false)
 		if !c.Thorough() && len(in) > 200 {
 			in = in[:200]
 		}
